@@ -86,12 +86,27 @@ def seeded(props, only=None):
         finally:
             os.unlink(tmp_patch)
         rec["mutant"] = d
+        if meta.get("expected"):
+            rec["expected"] = meta["expected"]
         results.append(rec)
         print(json.dumps(rec, sort_keys=True), flush=True)
-    missed = [r for r in results if not r.get("detected")]
-    print("seeded: %d changes, %d detected, %d missed: %s" % (len(results), len(results) - len(missed), len(missed),
-                                                              [r["mutant"] for r in missed]))
-    with open(os.path.join(sdir, "RESULTS.json"), "w") as fo:
+    # a change whose meta.json says "expected": "missed" is a documented limit of the harness (DESIGN 11.8): it is run all
+    # the same, and a detection would be reported, but not detecting it is not a failure of the self-test
+    out_of_reach = [r for r in results if not r.get("detected") and r.get("expected") == "missed"]
+    missed = [r for r in results if not r.get("detected") and r.get("expected") != "missed"]
+    print("seeded: %d changes, %d detected, %d missed: %s; %d outside what is simulated: %s"
+          % (len(results), len(results) - len(missed) - len(out_of_reach), len(missed), [r["mutant"] for r in missed],
+             len(out_of_reach), [r["mutant"] for r in out_of_reach]))
+    res_path = os.path.join(sdir, "RESULTS.json")
+    if only and os.path.exists(res_path):
+        # a partial run updates the entries it re-ran and keeps the others
+        try:
+            prev = json.load(open(res_path)).get("results", [])
+        except ValueError:
+            prev = []
+        names = set(r["mutant"] for r in results)
+        results = sorted([r for r in prev if r.get("mutant") not in names] + results, key=lambda r: r["mutant"])
+    with open(res_path, "w") as fo:
         json.dump({"repo_head": subprocess.run(["git", "-C", env.REPO, "rev-parse", "--short", "HEAD"], capture_output=True,
                                                text=True).stdout.strip(), "results": results}, fo, indent=1, sort_keys=True)
     return 0 if not missed else 1
